@@ -20,6 +20,6 @@ CONSTANTS
   Modes <- MCAudit
   MaxSteps = 2
   ModelDeviations = TRUE
-  Follow <- MCFollowD1D2
+  Follow <- MCFollowNone
   EmitAll = FALSE
 INVARIANTS AuditAcceptsAll_AsRead
